@@ -38,10 +38,11 @@ use super::{EXTRA_PACKET_SIZE_IPV4, EXTRA_PACKET_SIZE_IPV6};
 
 /// Size of each request buffer
 ///
-/// Needs to fit recvmsg metadata in addition to the payload.
-///
-/// The payload of a scrape request with 20 info hashes fits in 256 bytes.
-const REQUEST_BUF_LEN: usize = 512;
+/// Needs to fit recvmsg metadata (header and source address) in addition to
+/// the payload. Payloads of up to BUFFER_SIZE bytes are accepted, just like
+/// in the mio implementation, so that valid scrape requests with many info
+/// hashes are not dropped as truncated.
+const REQUEST_BUF_LEN: usize = BUFFER_SIZE + 64;
 
 /// Size of each response buffer
 ///
